@@ -1377,7 +1377,57 @@ def dustflood(rng):
     return {"cfg": _cfg(rng, n), "ops": ops}
 
 
-FAMILIES = {"dustflood": dustflood, "evreload": evreload, "cfgreload": cfgreload, "badonion": badonion, "inflightadd": inflightadd, "openshut": openshut, "windowlimit": windowlimit, "tampercs": tampercs, "fwdlate": fwdlate, "asyncsign": asyncsign, "skim": skim, "batchopen": batchopen, "discomplete": discomplete, "monbcast": monbcast, "staletwo": staletwo, "bigclaim": bigclaim, "dustclose": dustclose, "slots": slots, "asynccross": asynccross, "blockedjump": blockedjump, "feecross": feecross, "opendisc": opendisc, "chainsettle": chainsettle, "crosslimit": crosslimit, "evhold": evhold, "failwin": failwin, "fanin": fanin, "inflight": inflight, "holdcell": holdcell, "stalehold": stalehold}
+def closecross(rng):
+    """A cooperative close is asked for (by either side, possibly by both) while the channel is busy: adds, removals and
+    fee updates on the wire, parked in a holding cell behind an awaited revocation, or held behind an in-flight monitor
+    write; the peer's shutdown crosses them in every order (C01: honest operation never ends in an error, a panic or a
+    force-closure; the close completes once the HTLCs are gone and pays each side its final balance less the fee)."""
+    cfg = _cfg(rng, 2)
+    dirs = [(0, 1), (1, 0)]
+    ops = []
+    npay = 0
+    # some settled history, some pending HTLCs
+    for _ in range(rng.choice([0, 1, 1, 2])):
+        a = rng.choice([0, 1])
+        ops += [{"op": "send", "from": a, "to": 1 - a, "amt": rng.choice(["big", "justabove", "dust"])}, {"op": "deliver_all"}]
+        npay += 1
+    settled = 0
+    for k in range(npay):
+        if rng.random() < 0.5:
+            ops += [{"op": "claim" if rng.random() < 0.7 else "fail", "pay": k}, {"op": "deliver_all"}]
+    if rng.random() < 0.25:
+        ops.append({"op": "persist_mode", "node": rng.choice([0, 1]), "mode": "inprogress"})
+    closed = set()
+    steps = rng.randrange(3, 9)
+    close_at = sorted(rng.sample(range(steps), rng.choice([1, 1, 2])))
+    for i in range(steps):
+        if i in close_at:
+            a = rng.choice([x for x in (0, 1) if x not in closed] or [0])
+            ops.append({"op": "close", "a": a, "b": 1 - a})
+            closed.add(a)
+        else:
+            r = rng.random()
+            if r < 0.4:
+                a = rng.choice([0, 1])
+                ops.append({"op": "send", "from": a, "to": 1 - a, "amt": rng.choice(["big", "justabove", "dust", "half"])})
+                npay += 1
+            elif r < 0.7 and not closed:
+                # (a fee change makes the node's timer tick: none once a close is under way, see below)
+                ops.append({"op": "fee", "node": 0, "feerate": rng.choice([300, 500, 1000, 2000, 253])})
+            elif npay:
+                # (no timer ticks here: with messages deliberately left undelivered, two ticks make the library give up on the
+                #  peer -- "closing_signed negotiation failed to finish within two timer ticks" --, its documented timeout)
+                ops.append({"op": "claim" if rng.random() < 0.7 else "fail", "pay": rng.randrange(npay)})
+        ops += _deliveries(rng, dirs, rng.choice([0, 0, 1, 1, 2, 3]))
+        if rng.random() < 0.1:
+            ops.append({"op": "complete", "node": rng.choice([0, 1]), "which": rng.choice(["oldest", "all"])})
+    if rng.random() < 0.2:
+        ops += [{"op": "disconnect", "a": 0, "b": 1}, {"op": "reconnect", "a": 0, "b": 1}]
+    ops += _wind_down(npay, rng, [(0, 1)])
+    return {"cfg": cfg, "ops": ops}
+
+
+FAMILIES = {"closecross": closecross, "dustflood": dustflood, "evreload": evreload, "cfgreload": cfgreload, "badonion": badonion, "inflightadd": inflightadd, "openshut": openshut, "windowlimit": windowlimit, "tampercs": tampercs, "fwdlate": fwdlate, "asyncsign": asyncsign, "skim": skim, "batchopen": batchopen, "discomplete": discomplete, "monbcast": monbcast, "staletwo": staletwo, "bigclaim": bigclaim, "dustclose": dustclose, "slots": slots, "asynccross": asynccross, "blockedjump": blockedjump, "feecross": feecross, "opendisc": opendisc, "chainsettle": chainsettle, "crosslimit": crosslimit, "evhold": evhold, "failwin": failwin, "fanin": fanin, "inflight": inflight, "holdcell": holdcell, "stalehold": stalehold}
 
 
 def make(rng, family, count):
